@@ -215,8 +215,11 @@ def stub_path(spec, rng, acc):
                     ub = enc.encode_usb(m)
                     yb = enc.encode_yacht_devices(m)
                 except Exception as e:  # noqa: BLE001
+                    # priority 0..7, source/destination 0..255 and an 18-bit PGN are all inside the identifier's
+                    # value space: the header must be built for them
                     acc.count("stub_encode_failed")
-                    acc.note(f"stub encode failed for PGN {pgn}: {type(e).__name__}: {e}")
+                    acc.violation("in-range-header-rejected", f"PGN {pgn} prio {prio} src {src} dst {dst}: encode raised {type(e).__name__}: {e}",
+                                  {"kind": "stub", "pgn": pgn, "prio": prio, "src": src, "dst": dst})
                     continue
                 exp_id = wire.can_id(prio, pgn, src, dst)
                 got = {"ebyte": int.from_bytes(eb[0][1:5], "big"), "usb": int.from_bytes(ub[0][5:9], "little"),
